@@ -566,9 +566,15 @@ def corr_fock(ctx, B):
         i = rng.randrange(D ** k)
         c = Circuit(n, D, pure=pure)
         c._state, c._pure = np.array(st, dtype=np.complex128), pure
-        with m6.ScriptRNG(choice=lambda a, p, i=i: a[i]) as sr:
-            ret = c.measure_fock(list(measure))
         case = dict(kind="measure_fock", n=n, D=D, measure=measure, i=i, pure=pure)
+        try:
+            with m6.ScriptRNG(choice=lambda a, p, i=i: a[i]) as sr:
+                ret = c.measure_fock(list(measure))
+        except Exception as e:  # noqa: BLE001
+            if not (isinstance(e, ZeroDivisionError)):
+                ctx.corr_cases += 1
+                ctx.disagree("Measure.fockOutcome vs Circuit.measure_fock", case, "an outcome list", f"raised {type(e).__name__}: {e}")
+            continue
         ctx.count("corr:fock:outcome", case, k >= 2 and measure != sorted(measure), sample=case)
         B.add(dict(op="meas.fockOutcome", measure=measure, i=i, D=D, n=n), "Measure.fockOutcome vs Circuit.measure_fock", case,
               lambda r, ret=ret: None if np.asarray(ret).tolist() == [r["outcome"]] else (r["outcome"], np.asarray(ret).tolist()))
@@ -656,7 +662,6 @@ def corr_sampler(ctx, B):
     """BosonicModes.measure_dyne on multi-peak states (negative weights included) with the generator scripted: peak
     choice probabilities, proposal parameters, every accept / reject decision of the rejection loop, and the state update
     for the accepted point, against Measure.{ubIndices, ubWeightsProb, probDistVal, probUpbnd, accept, bosonicDyneComp}"""
-    from strawberryfields.backends.bosonicbackend.bosoniccircuit import BosonicModes
     rng = ctx.rng
     for it in range(ctx.n(24, 240)):
         n = rng.randint(1, 3)
@@ -674,88 +679,110 @@ def corr_sampler(ctx, B):
         offs = [np.array([m6.dy(rng, -8, 8, 4), m6.dy(rng, -8, 8, 4)]) for _ in range(4)]
         us = [rng.choice([0.995, 0.9, 0.5]), rng.choice([0.95, 0.45]), 0.0]
         picks = [rng.randrange(8) for _ in range(8)]
-        b = BosonicModes(n)
-        b.weights, b.means, b.covs = w0.astype(complex), means.astype(complex), covs.astype(complex)
-        counter = dict(k=0)
-
-        def choose(a, p, picks=picks, counter=counter):
-            v = a[picks[counter["k"] % len(picks)] % len(a)]
-            return v
-
-        def mvn(mean, cov, offs=offs, counter=counter):
-            if counter["k"] >= 10:
-                raise _GiveUp()                  # the scripted points never reach positive target density
-            v = mean + offs[counter["k"] % len(offs)]
-            counter["k"] += 1
-            return v
         case = dict(kind="sampler", n=n, mode=mode, covs=covs.tolist(), means=means.tolist(), weights=w0.tolist(),
                     covmat=covmat.tolist(), offs=[o.tolist() for o in offs], us=us, picks=picks)
         ctx.count("corr:bosonic:sampler", case, True, sample=dict(n=n, mode=mode, nc=nc, weights=w0.tolist()))
-        sr = m6.ScriptRNG(choice=choose, mvn=mvn, random=lambda k, us=us: us[min(k, len(us) - 1)])
-        try:
-            with sr:
-                ret = b.measure_dyne(covmat.copy(), [mode], shots=1)
-        except _GiveUp:
-            ctx.tally("sampler:gave-up")
-            continue
-        except Exception as e:  # noqa: BLE001
-            ctx.corr_cases += 1
-            ctx.disagree("Measure.accept vs BosonicModes.measure_dyne", case, "a sample", f"raised {type(e).__name__}: {e}")
-            continue
-        ch, mv, rn = sr.calls("choice"), sr.calls("multivariate_normal"), sr.calls("random")
-        if not (len(ch) == len(mv) == len(rn)) or len(mv) > 12:
-            ctx.corr_cases += 1
-            ctx.disagree("Measure.accept vs BosonicModes.measure_dyne", case, "one choice/mvn/random per iteration",
-                         [len(ch), len(mv), len(rn)])
-            continue
-        total = len(mv)
-        ctx.tally(f"sampler:iterations={min(total, 4)}")
-        for k in range(total):
-            peak = ch[k]["a"][picks[k % len(picks)] % len(ch[k]["a"])]
-            x = mv[k]["mean"] + offs[k % len(offs)]
-            # proposal = the chosen peak's marginal + measurement covariance
-            if not (np.allclose(mv[k]["mean"], means[peak][ix], atol=1e-12) and np.allclose(mv[k]["cov"], covs[peak][np.ix_(ix, ix)] + covmat, atol=1e-12)):
-                ctx.corr_cases += 1
-                ctx.disagree("proposal parameters of BosonicModes.measure_dyne", case,
-                             dict(mean=means[peak][ix].tolist(), cov=(covs[peak][np.ix_(ix, ix)] + covmat).tolist()),
-                             dict(mean=mv[k]["mean"].tolist(), cov=mv[k]["cov"].tolist()))
-                break
-            fac = _peak_factors(covs, means, ix, covmat, x)
-            u = us[min(k, len(us) - 1)]
-            pd = sum(w * pf * e for w, (pf, e) in zip(w0, fac))
-            ub = sum(abs(w) * pf * e for w, (pf, e) in zip(w0, fac) if not w < 0)
-            if abs(u * ub - pd) < 1e-9 * max(ub, 1e-300):
-                continue                                    # too close to the threshold to compare float with exact
-            observed = (k == total - 1)
+        sampler_one(ctx, B, case)
 
-            def chk(r, ck=ch[k], observed=observed, w0=w0):
-                if list(ck["a"]) != r["ubInd"]:
-                    return (r["ubInd"], list(ck["a"]))
-                mp = np.array([m6.unrat(x_) for x_ in r["ubProb"]])
-                if not m6.close(ck["p"], mp, 1e-12):
-                    return (mp.tolist(), ck["p"].tolist())
-                if bool(r["accept"]) != observed:
-                    return (dict(accept=r["accept"], p=m6.unrat(r["p"]), ub=m6.unrat(r["ub"])), dict(accepted=observed))
-                return None
+
+def sampler_one(ctx, B, case):
+    """one scripted run of the rejection sampler (also the replay entry point); B = None skips the model comparison"""
+    from strawberryfields.backends.bosonicbackend.bosoniccircuit import BosonicModes
+    n, mode = case["n"], case["mode"]
+    covs, means, w0 = np.array(case["covs"]), np.array(case["means"]), np.array(case["weights"])
+    covmat, offs, us, picks = np.array(case["covmat"]), [np.array(o) for o in case["offs"]], case["us"], case["picks"]
+    ix = [2 * mode, 2 * mode + 1]
+    counter = dict(k=0)
+    b = BosonicModes(n)
+    b.weights, b.means, b.covs = w0.astype(complex), means.astype(complex), covs.astype(complex)
+    counter = dict(k=0)
+
+    def choose(a, p, picks=picks, counter=counter):
+        v = a[picks[counter["k"] % len(picks)] % len(a)]
+        return v
+
+    def mvn(mean, cov, offs=offs, counter=counter):
+        if counter["k"] >= 10:
+            raise _GiveUp()                  # the scripted points never reach positive target density
+        v = mean + offs[counter["k"] % len(offs)]
+        counter["k"] += 1
+        return v
+    sr = m6.ScriptRNG(choice=choose, mvn=mvn, random=lambda k, us=us: us[min(k, len(us) - 1)])
+    try:
+        with sr:
+            ret = b.measure_dyne(covmat.copy(), [mode], shots=1)
+    except _GiveUp:
+        ctx.tally("sampler:gave-up")
+        return
+    except Exception as e:  # noqa: BLE001
+        ctx.corr_cases += 1
+        ctx.disagree("Measure.accept vs BosonicModes.measure_dyne", case, "a sample", f"raised {type(e).__name__}: {e}")
+        return
+    ch, mv, rn = sr.calls("choice"), sr.calls("multivariate_normal"), sr.calls("random")
+    if not (len(ch) == len(mv) == len(rn)) or len(mv) > 12:
+        ctx.corr_cases += 1
+        ctx.disagree("Measure.accept vs BosonicModes.measure_dyne", case, "one choice/mvn/random per iteration",
+                     [len(ch), len(mv), len(rn)])
+        return
+    total = len(mv)
+    ctx.tally(f"sampler:iterations={min(total, 4)}")
+    for k in range(total):
+        peak = ch[k]["a"][picks[k % len(picks)] % len(ch[k]["a"])]
+        x = mv[k]["mean"] + offs[k % len(offs)]
+        # proposal = the chosen peak's marginal + measurement covariance
+        if not (np.allclose(mv[k]["mean"], means[peak][ix], atol=1e-12) and np.allclose(mv[k]["cov"], covs[peak][np.ix_(ix, ix)] + covmat, atol=1e-12)):
+            ctx.corr_cases += 1
+            ctx.disagree("proposal parameters of BosonicModes.measure_dyne", case,
+                         dict(mean=means[peak][ix].tolist(), cov=(covs[peak][np.ix_(ix, ix)] + covmat).tolist()),
+                         dict(mean=mv[k]["mean"].tolist(), cov=mv[k]["cov"].tolist()))
+            break
+        fac = _peak_factors(covs, means, ix, covmat, x)
+        u = us[min(k, len(us) - 1)]
+        pd = sum(w * pf * e for w, (pf, e) in zip(w0, fac))
+        ub = sum(abs(w) * pf * e for w, (pf, e) in zip(w0, fac) if not w < 0)
+        if abs(u * ub - pd) < 1e-9 * max(ub, 1e-300):
+            continue                                  # too close to the threshold to compare float with exact
+        observed = (k == total - 1)
+        # property-level: with proposal density envelope/Z the outcome is Born-distributed iff a uniform u is accepted
+        # exactly when u < target/envelope (independent evaluation of both densities at the proposed point)
+        ctx.oracle_cases += 1
+        if observed != (u * ub < pd):
+            ctx.fail("sampler-born:accept-test",
+                     f"bosonic measure_dyne, mode {mode} of {n}, weights {w0.tolist()}: proposed point {x.tolist()} with uniform draw "
+                     f"{u} was {'accepted' if observed else 'rejected'} although target density = {pd:.6g}, envelope = {ub:.6g} "
+                     f"(ratio {pd / ub:.6g}): accepted samples are not Born-distributed", dict(kind="sampler", case=case))
+
+        def chk(r, ck=ch[k], observed=observed, w0=w0):
+            if list(ck["a"]) != r["ubInd"]:
+                return (r["ubInd"], list(ck["a"]))
+            mp = np.array([m6.unrat(x_) for x_ in r["ubProb"]])
+            if not m6.close(ck["p"], mp, 1e-12):
+                return (mp.tolist(), ck["p"].tolist())
+            if bool(r["accept"]) != observed:
+                return (dict(accept=r["accept"], p=m6.unrat(r["p"]), ub=m6.unrat(r["ub"])), dict(accepted=observed))
+            return None
+        if B is not None:
             B.add(dict(op="meas.sampler", ws=m6.rvec(w0), u=m6.rat(u),
                        peaks=[[m6.rat(float(w)), m6.rat(pf), m6.rat(e)] for w, (pf, e) in zip(w0, fac)]),
                   "Measure.{ubIndices, ubWeightsProb, accept} vs BosonicModes.measure_dyne (rejection loop)", dict(case, iteration=k), chk)
-        # state update for the accepted point
-        if n > 1:
-            vm = np.asarray(ret)[0]
+    # state update for the accepted point
+    if n > 1 and B is not None:
+        vm = np.asarray(ret)[0]
 
-            def chk2(r, b=b, w0=w0):
-                comps = r["comps"]
-                mc = np.array([m6.unrmat(c["cov"]) for c in comps])
-                mm = np.array([m6.unrvec(c["mean"]) for c in comps])
-                wm = _weights_from_model(comps, w0)
-                keep = np.abs(wm) > 0
-                if not m6.close(b.covs, mc[keep], 1e-8) or not m6.close(b.means, mm[keep], 1e-8) or not m6.close(b.weights, wm[keep], 1e-8):
-                    return (dict(weights=[complex(x).real for x in wm]), dict(weights=[complex(x).real for x in b.weights]))
-                return None
-            B.add(dict(op="meas.bosonicPost", sigma=m6.rmat(covmat), vm=m6.rvec(vm), covs=[m6.rmat(V) for V in covs],
-                       means=[m6.rvec(r) for r in means], modes=[mode]),
-                  "Measure.bosonicDyneComp vs BosonicModes.measure_dyne (accepted sample)", case, chk2)
+        def chk2(r, b=b, w0=w0):
+            comps = r["comps"]
+            mc = np.array([m6.unrmat(c["cov"]) for c in comps])
+            mm = np.array([m6.unrvec(c["mean"]) for c in comps])
+            wm = _weights_from_model(comps, w0)
+            keep = np.abs(wm) > 0
+            if not m6.close(b.covs, mc[keep], 1e-8) or not m6.close(b.means, mm[keep], 1e-8) or not m6.close(b.weights, wm[keep], 1e-8):
+                return (dict(weights=[complex(x).real for x in wm]), dict(weights=[complex(x).real for x in b.weights]))
+            return None
+        B.add(dict(op="meas.bosonicPost", sigma=m6.rmat(covmat), vm=m6.rvec(vm), covs=[m6.rmat(V) for V in covs],
+                   means=[m6.rvec(r) for r in means], modes=[mode]),
+              "Measure.bosonicDyneComp vs BosonicModes.measure_dyne (accepted sample)", case, chk2)
+
+
 
 
 class _Stub:
@@ -1651,8 +1678,58 @@ def oracle_fock_pdf(ctx, sf, rng):
                      f"post-selected on that value by {d:.3g}", rp)
 
 
+def oracle_multi_dyne_case(ctx, sf, case):
+    """general-dyne measurement of SEVERAL modes at circuit level (`GaussianModes.measure_dyne`, `BosonicModes.measure_dyne`;
+    not reachable through the front end): generator arguments = joint marginal + measurement covariance, state afterwards =
+    joint conditional state of the drawn point, measured modes vacuum"""
+    n, modes, backend = case["n"], case["modes"], case["backend"]
+    sigma, off = np.array(case["sigma"]), np.array(case["off"])
+    ref = sim.reference(dict(n=n, ops=case["prefix"]), 2.0)
+    rp = dict(kind="multidyne", case=case)
+    ctx.oracle_cases += 1
+    prog, _ = progs.build(dict(n=n, ops=case["prefix"]))
+    eng = sf.Engine(backend)
+    eng.run(prog)
+    script = m6.ScriptRNG(mvn_offset=off)
+    try:
+        with script:
+            ret = eng.backend.circuit.measure_dyne(sigma.copy(), list(modes), shots=1)
+        st = eng.backend.state()
+    except Exception as e:  # noqa: BLE001
+        ctx.fail(f"multi-dyne:raises:{backend}", f"{backend} circuit.measure_dyne(covmat, {modes}) raised {type(e).__name__}: {e}", rp)
+        return
+    Bx = list(modes) + [m + n for m in modes]
+    Ax = [i for i in range(2 * n) if i not in Bx]
+    mu_b, V_b = ref.mu[Bx], ref.V[np.ix_(Bx, Bx)]
+    calls = script.calls("multivariate_normal")
+    if len(calls) != 1 or not np.allclose(calls[0]["mean"], mu_b, atol=1e-8) or not np.allclose(calls[0]["cov"], V_b + sigma, atol=1e-8):
+        ctx.fail(f"multi-dyne:rng-args:{backend}", f"{backend} circuit.measure_dyne(covmat, {modes}) of {n}: generator received "
+                 f"{[(c['mean'].tolist(), c['cov'].tolist()) for c in calls]}, joint marginal + covmat is {(mu_b.tolist(), (V_b + sigma).tolist())}", rp)
+        return
+    vm = mu_b + off
+    W = np.linalg.inv(V_b + sigma)
+    out = sim.RefState(n)
+    out.V, out.mu = np.eye(2 * n), np.zeros(2 * n)
+    out.V[np.ix_(Ax, Ax)] = ref.V[np.ix_(Ax, Ax)] - ref.V[np.ix_(Ax, Bx)] @ W @ ref.V[np.ix_(Bx, Ax)]
+    out.mu[Ax] = ref.mu[Ax] + ref.V[np.ix_(Ax, Bx)] @ W @ (vm - mu_b)
+    got = _moments(sf, st, backend, 2.0)
+    d = sim.moment_dist(got, out.alpha_N_M())
+    if d > 1e-7 or not np.allclose(np.asarray(ret)[0], vm, atol=1e-9):
+        ctx.fail(f"multi-dyne:conditional:{backend}", f"{backend} circuit.measure_dyne(covmat, {modes}) of {n} with drawn point {vm.tolist()}: "
+                 f"returned {np.asarray(ret).tolist()}, state differs from the joint conditional state by {d:.3g}", rp)
+
+
+def gen_multi_dyne_case(rng, backend):
+    n = rng.randint(3, 4)
+    modes = scrambled(rng, n, rng.randint(2, n - 1))
+    k = len(modes)
+    return dict(n=n, modes=modes, backend=backend, prefix=_prefix(rng, n), sigma=m6.rand_cov(rng, 2 * k).tolist(),
+                off=[round(rng.uniform(-0.8, 0.8), 3) for _ in range(2 * k)])
+
+
 ORACLES = dict(dyne=oracle_dyne_case, sample=oracle_sample_case, cat=oracle_cat_case, fock=oracle_fock_case,
-               threshold=oracle_threshold_case, shared=oracle_shared_case, fockshared=oracle_fock_shared_case)
+               threshold=oracle_threshold_case, shared=oracle_shared_case, fockshared=oracle_fock_shared_case,
+               multidyne=oracle_multi_dyne_case)
 
 
 def run_oracle_case(ctx, sf, kind, case):
@@ -1721,6 +1798,10 @@ def oracle(ctx, sf):
         run_oracle_case(ctx, sf, "fockshared", case)
     for it in range(ctx.n(1, 8)):
         oracle_fock_pdf(ctx, sf, rng)
+    for it in range(ctx.n(8, 80)):
+        case = gen_multi_dyne_case(rng, ["gaussian", "bosonic"][it % 2])
+        ctx.count(f"oracle:multi-dyne:{case['backend']}", case, True, sample=dict(n=case["n"], modes=case["modes"]))
+        run_oracle_case(ctx, sf, "multidyne", case)
 
 
 # =================================================================== entry points
@@ -1751,6 +1832,8 @@ def _replay_one(ctx, sf, rp):
         check_layout(ctx, sf, rp["spec"], rp["shots"], rp["backend"], shared=rp.get("shared", False))
     elif kind == "focklayout":
         oracle_fock_layout(ctx, sf, None, spec=rp["spec"])
+    elif kind == "sampler":
+        sampler_one(ctx, None, rp["case"])
     elif kind in ORACLES:
         run_oracle_case(ctx, sf, kind, rp["case"])
 
